@@ -312,9 +312,39 @@ type TwinReport struct {
 	ChecksRun   int            `json:"checktx_calls"`
 }
 
+// the account that sends the probe payments of the C06 histories (nobody else uses it)
+var twinProbe = seedKey(150)
+
+// probedHistory: h with a payment by the probe account after every transaction
+func probedHistory(h *History, w *World) *History {
+	out := &History{Name: h.Name}
+	if h.Name != "" {
+		out.Name = h.Name + "+probes"
+	}
+	n := 0
+	GAS = 1000000
+	for bi, b := range h.Blocks {
+		nb := BlockIn{Absent: b.Absent, Byzantine: b.Byzantine, DT: b.DT}
+		d := []string{}
+		for ti, tx := range b.Txs {
+			n++
+			nb.Txs = append(nb.Txs, tx, txSend(twinProbe, w.Users[n%len(w.Users)].Addr, oltAmt("1000000000000"), fmt.Sprintf("c06probe%d", n)))
+			what := "?"
+			if bi < len(h.Descr) && ti < len(h.Descr[bi]) {
+				what = h.Descr[bi][ti]
+			}
+			d = append(d, what, "send probe")
+		}
+		out.Blocks = append(out.Blocks, nb)
+		out.Descr = append(out.Descr, d)
+	}
+	return out
+}
+
 // genesis variants by name
 func genesisVariant(w *World, name string) *GenesisSpec {
 	g := w.Genesis()
+	g.Funded = append(g.Funded, twinProbe.Addr)
 	switch name {
 	case "default":
 	case "mature": // unstaked amounts maturing at several heights (delegation.LoadState)
@@ -373,6 +403,14 @@ func twinMain(args []string) int {
 		}
 		for i := 0; i < *nh; i++ {
 			jobs = append(jobs, job{gens[i%len(gens)], genHistory(r, w, *nb, *tpb), r.Int63()})
+		}
+		if *mode == "c06" {
+			// every history once more with a probe payment after each transaction: what a refused transaction
+			// leaves behind in MEMORY (a swapped gas meter, a cached option, a flag) shows in the gas, fee and
+			// result of the transaction that follows it in the same block, not in the state the refused one wrote
+			for _, j := range append([]job{}, jobs...) {
+				jobs = append(jobs, job{j.genName, probedHistory(j.h, w), j.vseed + 1})
+			}
 		}
 	}
 	for i, j := range jobs {
@@ -457,6 +495,13 @@ func c07DirectedProbes(w *World) [][]byte {
 	return out
 }
 
+// keys and values of configuration-update proposals (CheckTx-only probes of C07, hostile inputs of C18)
+var cfgUpdateKeys = []string{"feeOption.minFeeDecimal", "onsOptions.perBlockFees", "onsOptions.baseDomainPrice", "stakingOptions.minSelfDelegationAmount",
+	"stakingOptions.topValidatorCount", "stakingOptions.maturityTime", "propOptions.configUpdate.initialFunding", "propOptions.general.fundingGoal",
+	"propOptions.codeChange.votingDeadline", "propOptions.general.fundingDeadline", "propOptions.configUpdate.passPercentage",
+	"evidenceOptions.minVotesRequired", "evidenceOptions.blockVotesDiff", "evidenceOptions.penaltyBasePercentage", "rewardOptions.unknown"}
+var cfgUpdateVals = []string{"0", "1", "2", "8", "64", "1000", "3000000", "1000000000000000000000000", "-1", "x"}
+
 // c07Probes: transactions for CheckTx only
 func c07Probes(w *World, r *rand.Rand) [][]byte {
 	out := [][]byte{}
@@ -467,11 +512,7 @@ func c07Probes(w *World, r *rand.Rand) [][]byte {
 	n := 0
 	memo := func() string { n++; return fmt.Sprintf("c07probe%d", n) }
 	GAS = 1000000
-	keysV := []string{"feeOption.minFeeDecimal", "onsOptions.perBlockFees", "onsOptions.baseDomainPrice", "stakingOptions.minSelfDelegationAmount",
-		"stakingOptions.topValidatorCount", "stakingOptions.maturityTime", "propOptions.configUpdate.initialFunding", "propOptions.general.fundingGoal",
-		"propOptions.codeChange.votingDeadline", "propOptions.general.fundingDeadline", "propOptions.configUpdate.passPercentage",
-		"evidenceOptions.minVotesRequired", "evidenceOptions.blockVotesDiff", "evidenceOptions.penaltyBasePercentage", "rewardOptions.unknown"}
-	vals := []string{"0", "1", "2", "8", "64", "1000", "3000000", "1000000000000000000000000", "-1", "x"}
+	keysV, vals := cfgUpdateKeys, cfgUpdateVals
 	for i, k := range keysV {
 		for j, v := range vals {
 			u := w.Users[(i+j)%len(w.Users)]
